@@ -292,26 +292,6 @@ def oracle_compare(subs_js, nq, script, state, debug=False):
     return None
 
 
-# ---------------------------------------------------------------- gate-level probes (C07's findings)
-
-def probe_gate_findings():
-    """Model-free probes of the two C07 defects that would otherwise surface in the C08 oracle:
-    F8 (S, T expand to their adjoints) and F9 (nv crot_y publishes an X-axis matrix)."""
-    out = {"F8": False, "F9": False}
-    from netqasm.util.quantum_gates import get_controlled_rotation_matrix
-    m = nv.ControlledRotYInstruction(reg0=op.Register(RegisterName.Q, 0), reg1=op.Register(RegisterName.Q, 1),
-                                     imm0=op.Immediate(8), imm1=op.Immediate(4)).to_matrix()
-    if not np.allclose(m, get_controlled_rotation_matrix([0, 1, 0], np.pi / 2)):
-        out["F9"] = True
-    for cname in ("vanilla.GateSInstruction", "vanilla.GateTInstruction"):
-        js = [ins("core.SetInstruction", reg(Q, 0), imm(0)), ins(cname, reg(Q, 0))]
-        st = np.array([0.6, 0.8j])
-        r = oracle_compare([js], 1, [0], st)
-        if r is not None:
-            out["F8"] = True
-    return out
-
-
 # ---------------------------------------------------------------- generators
 
 GATE1 = ["vanilla.GateXInstruction", "vanilla.GateYInstruction", "vanilla.GateZInstruction",
@@ -585,7 +565,7 @@ class _Recorder:
         return out
 
 
-def sdk_program(rng, nq, no_st=False):
+def sdk_program(rng, nq):
     """A random host program on the real SDK (NV compiler selected); returns the list of
     (vanilla subroutine JSON, real transpiler result) per flushed subroutine, or None if the SDK
     itself rejected the program."""
@@ -604,8 +584,6 @@ def sdk_program(rng, nq, no_st=False):
             def gate():
                 q = rng.choice(qs)
                 k = rng.randrange(12)
-                if no_st and k in (5, 6):
-                    k = rng.randrange(5)
                 if k < 7:
                     getattr(q, "XYZHKST"[k])()
                 elif k < 10:
